@@ -78,10 +78,32 @@ def basename_def(p):
     return sp_basename(p) == z3.If(k < 0, p, z3.SubString(p, k + 1, z3.Length(p) - k - 1))
 
 
+_join_f = None
+
+
 def sp_join(a, b):
+    """os.path.join of two strings as an opaque function symbol; join_axiom() gives its POSIX definition"""
+    global _join_f
+    if _join_f is None:
+        _join_f = z3.Function('os_path_join', z3.StringSort(), z3.StringSort(), z3.StringSort())
+    return _join_f(a, b)
+
+
+def join_def(a, b):
     slash = z3.StringVal('/')
     return z3.If(z3.PrefixOf(slash, b), b,
                  z3.If(z3.Or(z3.Length(a) == 0, z3.SuffixOf(slash, a)), z3.Concat(a, b), z3.Concat(a, slash, b)))
+
+
+def join_axiom():
+    a, b = z3.Strings('ja jb')
+    return z3.ForAll([a, b], sp_join(a, b) == join_def(a, b), patterns=[sp_join(a, b)])
+
+
+def register_quit(reg: Registry):
+    @reg.extern('lian.util.util.error_and_quit', 'util.error_and_quit: writes the message and raises SystemExit')
+    def _quit(ex, st, node, args, kwargs):
+        return [Outcome('raise', st, exc='SystemExit')]
 
 
 def register_ospath(reg: Registry):
@@ -90,7 +112,9 @@ def register_ospath(reg: Registry):
         p = args[0]
         if p.ty.kind != 'str':
             ex.safety(st, 'TypeError', 'os.path.basename of non-str', S.is_str(p.t))
-        return V(S.mk_str(sp_basename(S.sval(p.t))), Str)
+        b = sp_basename(S.sval(p.t))
+        st.assume(z3.Not(z3.PrefixOf(z3.StringVal('/'), b)))        # the text after the last '/' never starts with '/'
+        return V(S.mk_str(b), Str)
 
     @reg.extern('os.path.join', 'os.path.join (POSIX, two strings): absolute second argument wins; one separator inserted if needed')
     def _join(ex, st, node, args, kwargs):
